@@ -51,3 +51,13 @@ fn c04_msg_index_pow2() {
     assert!(v <= 1 || p / 2 < v, "capacity is not the least power of two");
     kani::cover!(v > 1 && p == v, "exact power of two");
 }
+
+// vacuity twin (thorough tier)
+#[kani::proof]
+#[kani::unwind(8)]
+fn c04tx_best_offset_twin() {
+    let entries = [SeqSeekIndexEntryV1::new(kani::any(), kani::any())];
+    let got = best_offset_for_seq(&entries, kani::any());
+    kani::cover!(got != 0, "an offset found");
+    assert!(false, "vacuity-witness");
+}
